@@ -348,7 +348,13 @@ impl Directory {
     /// directory.to_writer(&mut output, Compression::GZip).unwrap();
     /// ```
     pub fn to_writer(&self, output: &mut impl Write, compression: Compression) -> Result<()> {
-        self.to_writer_impl(output, compression)
+        // An encoder emits its last bytes when it is dropped, where a failure of the stream
+        // cannot be reported. Encode into memory first (which cannot fail half-way) and hand
+        // the finished bytes to the stream, so that every I/O error reaches the caller.
+        let mut buffer = Vec::<u8>::new();
+        self.to_writer_impl(&mut buffer, compression)?;
+        output.write_all(&buffer)?;
+        output.flush()
     }
 
     /// Async version of [`to_writer`](Self::to_writer).
